@@ -109,10 +109,20 @@ where
     T: Buf,
 {
     fn new(id: u16, mtu: usize, buf: T) -> MakeFragments<T> {
-        assert!(mtu > 4);
-        let size = mtu - 4;
+        // the mtu is dictated by the peer; a frame that needs more than 127 fragments (or any
+        // fragment at all with mtu <= 4) can not be represented: yield nothing instead
         let len = buf.remaining();
-        let total = div_ceil(len, size) as u8;
+        let total = if mtu > 4 { div_ceil(len, mtu - 4) } else { usize::MAX };
+        if total > 127 {
+            return MakeFragments {
+                buf,
+                mtu,
+                id,
+                total: 0,
+                next: 0,
+            };
+        }
+        let total = total as u8;
         MakeFragments {
             buf,
             mtu,
@@ -123,10 +133,17 @@ where
     }
 }
 
+impl<T: Buf> MakeFragments<T> {
+    /// false if the buffer can not be split into at most 127 fragments of this mtu
+    pub fn is_representable(&self) -> bool {
+        self.total > 0 || !self.buf.has_remaining()
+    }
+}
+
 impl<T: Buf> Iterator for MakeFragments<T> {
     type Item = Bytes;
     fn next(&mut self) -> Option<Bytes> {
-        if self.buf.has_remaining() {
+        if self.total > 0 && self.buf.has_remaining() {
             let data_len = self.buf.remaining().min(self.mtu - 4);
             let mut buf = BytesMut::with_capacity(self.mtu);
             buf.put_u16(self.id);
